@@ -345,19 +345,21 @@ Section SbSafety.
     Lemma sb_invoke_safe fr f self args :
       sbfr_top fr = true -> sb_fun_safe F f = true -> sb_safe (sb_invoke F ev inv fr f self args).
     Proof.
-      intros Gs Hs. destruct sb_prem_split as (_ & Hh & Hcb & _ & _ & _ & _ & Hi).
+      intros Gs Hs. destruct sb_prem_split as (_ & Hh & Hcb & _ & _ & Hgf & Hrg & Hi).
       destruct f as [nm|params body]; unfold sb_invoke.
       - rewrite Hs. apply sb_safe_bind; [apply sb_safe_log_call|intros _].
-        assert (match sb_class_of nm with SbPure | SbHigher => true | _ => false end = true) as Hc.
+        assert (sb_native_pure F nm = true) as Hp.
         { simpl in Hs. unfold sb_lookupb in Hs. destruct (sb_assoc nm (sbf_funcs F)) as [b|] eqn:E; [|discriminate].
           subst b. apply sb_assoc_in in E. unfold sb_safe_funcs_harmless in Hh. rewrite forallb_forall in Hh.
           specialize (Hh _ E). simpl in Hh. exact Hh. }
-        destruct (sb_class_of nm) eqn:Hcl; try discriminate.
-        + apply sb_safe_bind; [apply sb_safe_choose|intros c]. destruct (sbc_b c); [apply sb_safe_fail|apply sb_safe_ret].
+        unfold sb_class_of. rewrite Hp. simpl negb. cbv iota.
+        destruct (sb_native_higher F nm) eqn:Hcl.
         + assert (sb_lookupb nm (sbf_cbguards F) = true) as Hg.
-          { unfold sb_callbacks_guarded in Hcb. rewrite forallb_forall in Hcb. apply Hcb.
-            unfold sb_class_of in Hcl. destruct (sb_mem nm sb_higher_names) eqn:M; [apply sb_mem_in; exact M|].
-            destruct (sb_mem nm sb_pure_names); discriminate. }
+          { unfold sb_native_higher in Hcl. unfold sb_lookupb.
+            destruct (sb_assoc nm (sbf_cbguards F)) as [b|] eqn:E; [|discriminate].
+            apply sb_assoc_in in E. unfold sb_callbacks_guarded in Hcb. rewrite forallb_forall in Hcb.
+            specialize (Hcb _ E). simpl in Hcb. simpl in Hs. rewrite Hs in Hcb. simpl in Hcb.
+            rewrite orb_false_r in Hcb. exact Hcb. }
           destruct args as [|[] rest]; try apply sb_safe_fail.
           * apply sb_safe_bind; [apply sb_safe_choose|intros; apply sb_safe_ret].
           * unfold sb_inherit. rewrite Hi, Gs, Hg. simpl.
@@ -365,6 +367,10 @@ Section SbSafety.
             apply sb_safe_bind; [apply sb_safe_fields|intros items].
             apply sb_safe_bind; [apply sb_safe_each; assumption|intros _].
             apply sb_safe_bind; [apply sb_safe_choose|intros; apply sb_safe_ret].
+        + assert (sb_safe (c <- sb_choose ;; if sbc_b c then @sb_fail sb_val SbEOther else sb_ret (sbc_v c))) as Hch.
+          { apply sb_safe_bind; [apply sb_safe_choose|intros c]. destruct (sbc_b c); [apply sb_safe_fail|apply sb_safe_ret]. }
+          destruct self; try exact Hch. destruct (nm =? sb_n_ref_get); [|exact Hch].
+          rewrite Hrg. apply sb_safe_getfield. exact Hgf.
       - rewrite Hs. apply sb_safe_bind; [apply sb_safe_log_call|intros _].
         apply sb_safe_bind_alloc. intros o s.
         assert (sb_safe (ev (sb_sub_frame F fr sb_globals_val (Some (SbVObj sb_t_Dictionary o))) body)) as Hb.
@@ -419,6 +425,68 @@ Proof.
   inv Q. destruct x; simpl in H1; [contradiction|]. destruct H1 as [M D].
   unfold sb_no_hidden_global in Hng. rewrite forallb_forall in Hng. specialize (Hng g (sb_mem_in _ _ M)).
   unfold sb_global_defined in D. destruct (sb_assoc g (nth 0 (sbs_shared s) [])); discriminate.
+Qed.
+
+(* ------------------------------------------------------------------ natives *)
+(* registered side-effect-free => established pure by the analysis of the C++ body (premise [sb_safe_funcs_harmless]) *)
+Lemma sb_safe_native_is_pure F nm :
+  sb_premises F = true -> sb_fun_safe F (SbNative nm) = true -> sb_native_pure F nm = true.
+Proof.
+  intros Hp Hs. destruct (sb_prem_split F Hp) as (_ & Hh & _).
+  simpl in Hs. unfold sb_lookupb in Hs. destruct (sb_assoc nm (sbf_funcs F)) as [b|] eqn:E; [|discriminate].
+  subst b. apply sb_assoc_in in E. unfold sb_safe_funcs_harmless in Hh. rewrite forallb_forall in Hh.
+  specialize (Hh _ E). simpl in Hh. exact Hh.
+Qed.
+
+(* a native established pure that takes no callback returns a value or raises an error; the shared heap - in particular
+   every cell reachable from its receiver and its arguments -, the external component, the local heap and the log of
+   hidden reads are what they were *)
+Lemma sb_pure_native F fuel fr nm self args s :
+  sb_native_pure F nm = true -> sb_native_higher F nm = false -> (nm =? sb_n_ref_get) = false ->
+  let r := sb_run F (S fuel) (SbRqInvoke fr (SbNative nm) self args) s in
+  ((exists v, fst r = SbROk v) \/ fst r = SbRErr SbEOther) /\
+  (forall i, In i (sb_reach s (self :: args)) -> nth i (sbs_shared (snd r)) [] = nth i (sbs_shared s) []) /\
+  sbs_shared (snd r) = sbs_shared s /\ sbs_extern (snd r) = sbs_extern s /\ sbs_local (snd r) = sbs_local s /\
+  sbs_reads (snd r) = sbs_reads s.
+Proof.
+  intros Hp Hh Hn. cbn [sb_run sb_invoke]. unfold sb_class_of. rewrite Hp, Hh. cbn [negb].
+  assert (forall (m : sb_M sb_val),
+            m = (c <- sb_choose ;; if sbc_b c then sb_fail SbEOther else sb_ret (sbc_v c)) ->
+            let r := (sb_log_call nm (sb_fun_safe F (SbNative nm)) ;;; m) s in
+            ((exists v, fst r = SbROk v) \/ fst r = SbRErr SbEOther) /\
+            (forall i, In i (sb_reach s (self :: args)) -> nth i (sbs_shared (snd r)) [] = nth i (sbs_shared s) []) /\
+            sbs_shared (snd r) = sbs_shared s /\ sbs_extern (snd r) = sbs_extern s /\ sbs_local (snd r) = sbs_local s /\
+            sbs_reads (snd r) = sbs_reads s) as H.
+  { intros m ->. unfold sb_bind, sb_log_call, sb_choose, sb_fail, sb_ret. cbn.
+    destruct (sbs_choices s) as [|c r]; cbn.
+    - repeat split; try reflexivity. left. eexists. reflexivity.
+    - destruct (sbc_b c); cbn; repeat split; try reflexivity; [right; reflexivity|left; eexists; reflexivity]. }
+  destruct self; try (apply H; reflexivity). rewrite Hn. apply H; reflexivity.
+Qed.
+
+(* Reference#get (Reference::Get) on a reference to a no_user_view field of an object is refused and fetches nothing -
+   given the facts "Reference::Get reads with sandboxed = true" and "GetFieldByName tests FANoUserView" *)
+Lemma sb_reference_get_refused F fuel fr ty o idx args s :
+  sb_class_of F sb_n_ref_get = SbPure -> sbf_ref_get_checked F = true -> sbf_getfield_checked F = true ->
+  sb_is_hidden F ty idx = true ->
+  let r := sb_run F (S fuel) (SbRqInvoke fr (SbNative sb_n_ref_get) (SbVRef ty o idx) args) s in
+  fst r = SbRErr SbESandbox /\ sbs_reads (snd r) = sbs_reads s /\ sb_protected (snd r) = sb_protected s.
+Proof.
+  intros Hc Hr Hg Hh. cbn [sb_run sb_invoke]. rewrite Hc. rewrite N.eqb_refl.
+  unfold sb_getfield. rewrite Hh, Hr, Hg. cbn. repeat split; reflexivity.
+Qed.
+
+(* every native registered side-effect-free, the callback-taking ones included (their callbacks are tested): invoked
+   below a sandboxed stack top it leaves every cell reachable from receiver and arguments, and the whole protected
+   component, unchanged *)
+Lemma sb_safe_native_preserves F fuel fr nm self args s :
+  sb_premises F = true -> sbfr_top fr = true -> sb_fun_safe F (SbNative nm) = true ->
+  let s' := snd (sb_run F fuel (SbRqInvoke fr (SbNative nm) self args) s) in
+  (forall i, In i (sb_reach s (self :: args)) -> nth i (sbs_shared s') [] = nth i (sbs_shared s) []) /\
+  sb_protected s' = sb_protected s.
+Proof.
+  intros Hp Ht Hs. pose proof (sb_run_safe F Hp fuel (SbRqInvoke fr (SbNative nm) self args) (conj Ht Hs) s) as (A & B & _).
+  cbv zeta. split; [intros i _; rewrite A; reflexivity|]. unfold sb_protected. rewrite A, B. reflexivity.
 Qed.
 
 (* without the hypothesis on hidden globals: the only hidden values fetched are globals /v1/variables hides *)
